@@ -3,8 +3,10 @@ package compiler
 import (
 	"fmt"
 
+	"github.com/smarthome-go/homescript/v3/homescript/analyzer/ast"
 	"github.com/smarthome-go/homescript/v3/homescript/errors"
 	evalValue "github.com/smarthome-go/homescript/v3/homescript/interpreter/value"
+	pAst "github.com/smarthome-go/homescript/v3/homescript/parser/ast"
 	"github.com/smarthome-go/homescript/v3/homescript/runtime/value"
 )
 
@@ -38,6 +40,55 @@ func (self *Compiler) popScope() {
 		return
 	}
 	self.currScope = &self.varScopes[len(self.varScopes)-1]
+}
+
+// Makes the root scope of the given module the only active scope (it is created if required).
+func (self *Compiler) enterModuleScope(module string) {
+	root, exists := self.moduleScopes[module]
+	if !exists {
+		root = make(map[string]string)
+		self.moduleScopes[module] = root
+	}
+	self.varScopes = []map[string]string{root}
+	self.currScope = &self.varScopes[0]
+}
+
+// Binds every name which a module imports from another Homescript module to the definition in that module.
+// Only items defined by the source module itself can be imported, imports are not re-exported.
+func (self *Compiler) linkImports(program map[string]ast.AnalyzedProgram) {
+	type globalImport struct{ module, ident, mangled string }
+	globals := make([]globalImport, 0)
+
+	for moduleName, module := range program {
+		self.importedFns[moduleName] = make(map[string]string)
+
+		for _, item := range module.Imports {
+			if !item.TargetIsHMS {
+				continue
+			}
+
+			from := item.FromModule.Ident()
+
+			for _, importItem := range item.ToImport {
+				if importItem.Kind != pAst.IMPORT_KIND_NORMAL {
+					continue
+				}
+
+				ident := importItem.Ident.Ident()
+
+				if fn, found := self.modules[from][ident]; found {
+					self.importedFns[moduleName][ident] = fn.MangledName
+				} else if mangled, found := self.moduleScopes[from][ident]; found {
+					globals = append(globals, globalImport{module: moduleName, ident: ident, mangled: mangled})
+				}
+			}
+		}
+	}
+
+	// Imported globals are added last so that only a module's own globals are found above.
+	for _, glob := range globals {
+		self.moduleScopes[glob.module][glob.ident] = glob.mangled
+	}
 }
 
 func (self *Compiler) mangleFn(input string) string {
@@ -93,13 +144,9 @@ func (self Compiler) getMangledFn(input string) (string, bool) {
 		}
 	}
 
-	// TODO: i don't think that this is really reliable
-	for _, module := range self.modules {
-		for key, fn := range module {
-			if key == input {
-				return fn.MangledName, true
-			}
-		}
+	// Functions of other modules are only visible if they were imported.
+	if mangled, found := self.importedFns[self.currModule][input]; found {
+		return mangled, true
 	}
 
 	return "", false
